@@ -12,9 +12,10 @@ def configs(ctx):
     shapes = ctx.pick(fam.SHAPES_QUICK, fam.SHAPES_THOROUGH)
     specs = fam.curated()
     if not ctx.quick:
-        specs = specs + fam.small_dag_specs(4) + fam.dag_variant_specs(4)
+        specs = specs + fam.small_dag_specs(5) + fam.dag_variant_specs(4)
     cfgs = [Config(s, h, w, (), batch) for s in specs for (h, w) in shapes]
-    return (fam.quick_filter(cfgs) if ctx.quick else cfgs) + fam.wide_configs(ctx.quick)
+    extra = [] if ctx.quick else [Config(s, 2, 1, (), 2) for s in fam.small_dag_specs(5, mode="all") if s.name.startswith("dag5")]
+    return (fam.quick_filter(cfgs) if ctx.quick else cfgs) + fam.wide_configs(ctx.quick) + extra
 
 
 def run(ctx):
